@@ -1,4 +1,5 @@
 import PyxisVerif.Props.C05
+import PyxisVerif.Props.Exec
 #print axioms PyxisVerif.C05.built_shape
 #print axioms PyxisVerif.C05.no_address_rejected
 #print axioms PyxisVerif.C05.negative_address_rejected
@@ -8,3 +9,8 @@ import PyxisVerif.Props.C05
 #print axioms PyxisVerif.C05.impl_functions_all_present
 #print axioms PyxisVerif.C05.impl_blocks_merged
 #print axioms PyxisVerif.C05.hex_roundtrip
+#print axioms PyxisVerif.Exec.address_wrapper_calls_declared_address
+#print axioms PyxisVerif.Exec.address_wrapper_with_receiver
+#print axioms PyxisVerif.Exec.address_wrapper_static
+#print axioms PyxisVerif.Exec.built_type_address_methods
+#print axioms PyxisVerif.Exec.case_address_methods
